@@ -101,3 +101,26 @@ Theorem block_decoder_chunk_independent : forall (d : bdec) (a b : list N),
   snd r1 = snd r2 /\ (snd r1 = true -> r1 = r2).
 Proof. exact block_chunk_independent. Qed.
 Print Assumptions block_decoder_chunk_independent.
+
+(* block phase of the OCF Reader::read loop (fill_buf / BlockDecoder::decode / consume / flush, sync
+   check, records of one Avro long): over any chunked BufRead it yields the values and status of
+   the flat byte-automaton loop on the concatenated bytes ... *)
+Theorem ocf_block_phase_equals_flat : forall (chunks : list (list N)) (f1 f2 : nat) (sync : list N)
+    (d : bdec) (trace : list nat) (vals : list Z),
+  match bd_state d with BSync => (0 < bd_rem d)%N | _ => True end -> bd_state d <> BFinished ->
+  (length (concat chunks) < f1)%nat -> (length (concat chunks) < f2)%nat ->
+  (let '(_, v, st) := read_blocks f1 sync d chunks trace vals in (v, st))
+  = blocks1 f2 sync d (concat chunks) vals.
+Proof. exact read_blocks_flat'. Qed.
+Print Assumptions ocf_block_phase_equals_flat.
+
+(* ... hence two chunkings of the same bytes give the same values and status *)
+Theorem ocf_block_phase_chunk_independent : forall (c1 c2 : list (list N)) (f1 f2 : nat) (sync : list N)
+    (d : bdec) (t1 t2 : list nat) (vals : list Z),
+  match bd_state d with BSync => (0 < bd_rem d)%N | _ => True end -> bd_state d <> BFinished ->
+  concat c1 = concat c2 ->
+  (length (concat c1) < f1)%nat -> (length (concat c2) < f2)%nat ->
+  (let '(_, v, st) := read_blocks f1 sync d c1 t1 vals in (v, st))
+  = (let '(_, v, st) := read_blocks f2 sync d c2 t2 vals in (v, st)).
+Proof. exact read_blocks_chunk_independent. Qed.
+Print Assumptions ocf_block_phase_chunk_independent.
